@@ -575,17 +575,23 @@ let () =
         | [] -> "other" in
       let lsa = try Hashtbl.find impl k with Not_found -> [||] in
       let nl = try Hashtbl.find implcnt k with Not_found -> 0 in
-      let seg = ref [] and plain = ref [] and cur = ref None in
+      let seg = ref [] and plain = ref [] and nopw = ref [] and cur = ref None in
       Array.iter (fun l ->
         if l = "VARIANT seg" then cur := Some seg
         else if l = "VARIANT plain" then cur := Some plain
+        else if l = "VARIANT nopw" then cur := Some nopw
         else match !cur with Some c -> c := l :: !c | None -> ()) lsa;
       let crashed = Array.exists (fun l -> starts_with "MONITOR" l) lsa in
-      let stalled = Array.exists (fun l -> starts_with "RUN iterations=" l && (let n = String.length l in n >= 5 && String.sub l (n - 5) 5 = "LIMIT")) lsa in
-      if nl > max_lines || stalled then begin
+      let has_word wd l = List.mem wd (words l) in
+      let stalled = Array.exists (fun l -> starts_with "RUN iterations=" l && has_word "LIMIT" l) lsa in
+      (* runw: a socket whose last asendto was short / blocked and that the library does not watch for writability *)
+      let unwatched = Array.exists (fun l -> starts_with "RUN iterations=" l &&
+                                             (match kv "unwatched" (words l) with Some v -> v <> "[]" | None -> false)) lsa in
+      if nl > max_lines || stalled || unwatched then begin
         Printf.printf "CASE %d %s:stalled\n" k fam;
         if not crashed then Printf.printf "FAIL %d stall the transfer did not complete: %s\n" k
-            (if stalled then "an event loop of the history hit its iteration limit" else Printf.sprintf "%d log lines" nl)
+            (if unwatched then "unsent bytes on a socket the library does not watch for writability (runw)"
+             else if stalled then "an event loop of the history hit its iteration limit" else Printf.sprintf "%d log lines" nl)
       end else
       let a = analyze head fam (Array.of_list (List.rev !seg)) in
       if crashed || !plain = [] then begin
@@ -604,8 +610,24 @@ let () =
         List.iter (fun d -> Printf.printf "DIFF %d plain: %s\n" k d) (List.rev b.diffs);
         List.iter (fun (kd, d) -> Printf.printf "FAIL %d %s seg: %s\n" k kd d) (List.rev a.fails);
         List.iter (fun (kd, d) -> Printf.printf "FAIL %d %s plain: %s\n" k kd d) (List.rev b.fails);
-        (* metamorphic oracle *)
         let servers = match kvi "servers" (words head) with Some v -> v | None -> 1 in
+        (* third variant: without the pending-write callback (deferred-write notification must
+           not change the outcome either) *)
+        if !nopw <> [] then begin
+          let headn = List.filter (fun w -> w <> "pendingwritecb=1") (words head) in
+          let c = analyze (String.concat " " headn) fam (Array.of_list (List.rev !nopw)) in
+          List.iter (fun d -> Printf.printf "DIFF %d nopw: %s\n" k d) (List.rev c.diffs);
+          List.iter (fun (kd, d) -> Printf.printf "FAIL %d %s nopw: %s\n" k kd d) (List.rev c.fails);
+          let pkind = if a.dup_retry || c.dup_retry then "metamorphic-dup" else "metamorphic-pw" in
+          if a.cbs <> c.cbs then
+            Printf.printf "FAIL %d %s callbacks differ with / without the pending-write callback\n" k pkind;
+          if servers <= 1 && a.txs <> c.txs then
+            Printf.printf "FAIL %d %s messages at the server differ with / without the pending-write callback (%d / %d messages)\n" k pkind
+              (List.length a.txs) (List.length c.txs)
+          else if servers > 1 && List.sort compare (List.map snd a.txs) <> List.sort compare (List.map snd c.txs) then
+            Printf.printf "FAIL %d %s multiset of messages at the servers differs with / without the pending-write callback\n" k pkind
+        end;
+        (* metamorphic oracle *)
         (* A query that was transmitted twice on one connection and gets two retry-causing answers:
            whether the second one is counted depends on whether it is processed in the same
            read_answers() batch as the first (then the query is detached and the answer dropped)
